@@ -3,7 +3,8 @@
    the implementation's handler invocations are compared with on every run. *)
 From LolModel Require Import Base Selectors.
 From LolSpec Require Import CssSem.
-From LolProofs Require Import Css CssPred.
+From LolModel Require Import Machine Rewriter.
+From LolProofs Require Import Css CssPred StackTree Bailout.
 From Coq Require Import List.
 Import ListNotations.
 From Coq Require Import ZArith Lia.
@@ -48,6 +49,34 @@ Example C04_compound_ok_example :
               [SType (bs "div"); SClass (bs "b"); SNot [[SId (bs "z")]; [SNthChild 2 0]]; SNot [[SNot [[SAny; SAttrExists (bs "id")]]]]].
 Proof. repeat constructor; cbn; try discriminate; unfold in_i32; cbn; try lia. Qed.
 
+(* The open-element stack of the matching VM is the tree that explicit tags induce: for EVERY sequence of start tags (with
+   their namespace, attributes and self-closing flag) and end tags -- mis-nested, stray, void, foreign self-closing -- run
+   through the controller (start-tag hint, attribute request when needed, end-tag hint; every selector program; every
+   outcome of selector matching incl. attribute bail-out and recovery), the stack holds exactly the open elements of
+   CssSem.on_start / on_end with their child counts, as long as no element gets 2^31-1 children. *)
+Theorem C04_vm_stack_is_the_tag_induced_tree :
+  forall ops c ext t c',
+  r_prog c <> None -> shape (r_stack c) = tshape t -> never_wraps t ops -> vm_run c ext ops = Some c' ->
+  shape (r_stack c') = tshape (tree_run t ops).
+Proof. exact vm_stack_is_the_tag_induced_tree. Qed.
+(* ... and the index that :nth-child is evaluated with is the element's position among its siblings in that tree *)
+Theorem C04_nth_child_index_is_the_sibling_position :
+  forall s t name n attrs sc, shape s = tshape t -> small (length (siblings t)) ->
+  ss_cumulative (build_state (stack_add_child s (lname_of_str name)) (lname_of_str name)) = e_index (fst (on_start t name n attrs sc)).
+Proof. exact nth_child_index_is_the_sibling_position. Qed.
+
+(* Attribute bail-out and recovery (entry points, the parent's jumps, hereditary jumps, at any offset): running without
+   attributes, bailing out, and resuming with attributes computes exactly what one execution with attributes computes,
+   for every program, stack, element and attribute list. *)
+Theorem C04_attribute_bailout_and_recovery_equal_one_phase_execution :
+  forall prog stk attrs c,
+  match exec_without_attrs prog stk c with
+  | WoDone c' => exec_all_with_attrs prog stk c attrs = Some c'
+  | WoBail c' a r => recover prog stk c' a r attrs = exec_all_with_attrs prog stk c attrs
+  | WoPanic => exec_all_with_attrs prog stk c attrs = None
+  end.
+Proof. exact bailout_and_recovery_equal_one_phase_execution. Qed.
+
 (* non-vacuity / edge *)
 Example C04_names_example : lname_eqb (lname_of_str (bs "DIV")) (lname_of_str (bs "div")) = true
                          /\ lname_eqb (lname_of_str (bs "1a")) (lname_of_str (bs "a")) = false
@@ -63,3 +92,5 @@ Print Assumptions C04_attribute_operators_are_css.
 Print Assumptions C04_an_plus_b_meaning.
 Print Assumptions C04_nth_index_is_an_plus_b.
 Print Assumptions C04_predicate_decides_compound.
+Print Assumptions C04_vm_stack_is_the_tag_induced_tree.
+Print Assumptions C04_attribute_bailout_and_recovery_equal_one_phase_execution.
